@@ -893,6 +893,22 @@ def run(ctx):
                      "omd_len": None, "smd_len": None}
                 yield ("filter-nothing-passes-%s-%s" % (axis, inplace), f,
                        (lambda axis=axis, inplace=inplace: (lambda t=allzero(): t.filter(lambda v, i, m: False, axis=axis, inplace=inplace))))
+        # an offending table that exists already (built while its kind was ignored) handed on by an operation that builds
+        # a new table from it: the mirror kind on the other axis must meet the configured reaction
+        def offending(kind):
+            if kind == "obsdup":
+                return Table(np.arange(6.0).reshape(2, 3) + 1, ["a", "a"], ["x", "y", "z"])
+            if kind == "sampdup":
+                return Table(np.arange(6.0).reshape(2, 3) + 1, ["a", "b"], ["x", "y", "x"])
+            if kind == "obsmdsize":
+                return Table(np.arange(6.0).reshape(2, 3) + 1, ["a", "b"], ["x", "y", "z"], observation_metadata=[{"k": 1}] * 3)
+            return Table(np.arange(6.0).reshape(2, 3) + 1, ["a", "b"], ["x", "y", "z"], sample_metadata=[{"k": 1}] * 2)
+        for kind in ("obsdup", "sampdup", "obsmdsize", "sampmdsize"):
+            f = {"nrows": 3, "ncols": 2,
+                 "obs_ids": ["x", "y", "x"] if kind == "sampdup" else ["x", "y", "z"],
+                 "samp_ids": ["a", "a"] if kind == "obsdup" else ["a", "b"],
+                 "omd_len": 2 if kind == "sampmdsize" else None, "smd_len": 3 if kind == "obsmdsize" else None}
+            yield ("transpose-of-offending-%s" % kind, f, (lambda kind=kind: (lambda t=offending(kind): t.transpose())))
         # a file whose content is an offending table, read through every loader
         import h5py
         import biom
